@@ -284,7 +284,7 @@ package stanza
 //@   requires p != nil
 //@   ensures [C16.initstream.open] err == nil ==> count(TokenRead) > old(count(TokenRead)) && isOpen(last(TokenRead)) && idOf(last(TokenRead).(xml.StartElement).Attr, sessionID)
 //@   ensures [C16.initstream.first] forall(j, old(count(TokenRead)), count(TokenRead) - 1, typeof(arg(TokenRead, j)) != xml.StartElement)
-//@   emits TokenRead
+//@   emits TokenRead, DecodeFailed
 //@   loop 1:
 //@     invariant count(TokenRead) >= old(count(TokenRead)) && forall(j, old(count(TokenRead)), count(TokenRead), typeof(arg(TokenRead, j)) != xml.StartElement)
 //@   loop 2:
